@@ -400,12 +400,121 @@ Section Clauses.
        | _, _ => false
        end.
 
+  (* ---- DEPENDENT directives of one input list, judged in the order given:
+     a later directive may use what an earlier one staged (TRANSFER / TARBALL /
+     COPY a file, then LINK / COPY / MOVE that file on).  The input list of a
+     task is interpreted over "path -> content" in the order the property fixes:
+     client-side transfers first, then the agent-side directives (copy, link,
+     move, tarball) in list order, each seeing the effects of all earlier ones.
+     The judgement is made only for lists of simple directives (file to a fresh
+     file path) that the rest of the case leaves alone. *)
+  Definition cstate := list (path * Z).
+  Fixpoint st_get (p : path) (st : cstate) : option Z :=
+    match st with [] => None | (q, z) :: r => if path_eqb p q then Some z else st_get p r end.
+  Definition st_del (p : path) (st : cstate) : cstate := filter (fun x => negb (path_eqb p (fst x))) st.
+
+  Definition plain_files : cstate :=
+    List.concat (map (fun x => match snd x with F (Plain z) => [(fst x, z)] | _ => [] end) fs0).
+
+  Definition chain_step (st : option cstate) (di : dinfo) : option cstate :=
+    match st, di_src di, di_tgt di with
+    | Some st, Some (s, _), Some (g, tr) =>
+        let e := di_eff di in
+        if negb (supported true (di_act di)) then None
+        else if tr || is_dir g fs0 || negb (path_eqb g e) then None
+        else match e with [] => None | _ =>
+          (* the client packs the source of a TARBALL directive before anything else is staged *)
+          match (if action_eqb (di_act di) Tarball then st_get s plain_files else st_get s st) with
+          | None => None                        (* the source is not there when its turn comes *)
+          | Some z =>
+              if path_eqb s e || exists_at e fs0 || negb (no_file_above e) then None
+              else if existsb (fun x => related (fst x) e) st then None
+              else Some ((e, z) :: (if action_eqb (di_act di) Move then st_del s st else st))
+          end end
+    | _, _, _ => None
+    end.
+
+  Definition in_order (dis : list dinfo) : list dinfo :=
+    filter (fun di => di_input di && action_eqb (di_act di) Transfer) dis
+    ++ filter (fun di => di_input di && negb (action_eqb (di_act di) Transfer)) dis.
+
+  Definition own_tar (kt : nat * task) : list path :=
+    if existsb (has_action [Tarball]) (t_in (snd kt)) then [sandbox_path (snd kt) ++ [tar_name (snd kt)]] else [].
+
+  (* nothing else in the case writes, moves or removes what the list reads, or
+     touches what it writes *)
+  Definition chain_isolated (kt : nat * task) : bool :=
+    let mine := filter (fun di => di_input di) (dis_of kt) in
+    let others := filter (fun di => negb (Nat.eqb (di_task di) (fst kt) && di_input di)) ads in
+    let srcs := List.concat (map (fun di => match di_src di with Some (s, _) => [s] | None => [] end) mine) in
+    let effs := map di_eff mine ++ own_tar kt in
+    let touched := srcs ++ effs in
+    forallb (fun d' =>
+      forallb (fun p => negb (related (di_eff d') p)) touched
+      && match di_src d' with
+         | Some (s', _) => forallb (fun p => negb (related s' p)) effs
+                           && (negb (action_eqb (di_act d') Move) || forallb (fun p => negb (related s' p)) srcs)
+         | None => true
+         end) others
+    && forallb (fun q => forallb (fun p => negb (related q p)) touched) all_exec
+    && forallb (fun k' => if Nat.eqb (fst k') (fst kt) then true
+                          else forallb (fun q => forallb (fun p => negb (related q p)) touched) (own_tar k')) ts
+    && forallb (fun o => forallb (fun q => forallb (fun p => negb (related q p)) touched) (op_paths o)) all_ops
+    && forallb (fun q => forallb (fun di => negb (related q (di_eff di))
+                                            && match di_src di with Some (s, _) => negb (related q s) | None => true end)
+                                 mine) (own_tar kt).
+
+  (* Some st: every input directive of the task can be carried out in the order given *)
+  Definition chain_result (kt : nat * task) : option cstate :=
+    let mine := filter (fun di => di_input di) (dis_of kt) in
+    match mine with
+    | [] => None
+    | _ =>
+        (* sources of TARBALL directives are left alone by the list itself *)
+        let tar_src_ok :=
+          forallb (fun di => if action_eqb (di_act di) Tarball
+                             then match di_src di with
+                                  | Some (s, _) =>
+                                      forallb (fun d' => negb (related s (di_eff d'))
+                                                         && negb (action_eqb (di_act d') Move
+                                                                  && match di_src d' with
+                                                                     | Some (s', _) => related s s'
+                                                                     | None => false end)) mine
+                                  | None => false
+                                  end
+                             else true) mine in
+        if chain_isolated kt && tar_src_ok then fold_left chain_step (in_order mine) (Some plain_files) else None
+    end.
+
+  (* ... then the task gets through input staging and, at the end of the run,
+     every path the list wrote and did not move on holds the content that
+     reached it along the chain *)
+  Definition ok_chain_staged : bool :=
+    forallb (fun kt =>
+      match chain_result kt with
+      | Some st =>
+          if passed_input (states (fst kt))
+          then forallb (fun di => if di_input di
+                                  then match st_get (di_eff di) st with
+                                       | Some z => has_file tree (di_eff di) z
+                                       | None => true
+                                       end
+                                  else true) (dis_of kt)
+          else true
+      | None => true
+      end) ts.
+
+  Definition ok_chain_passes : bool :=
+    forallb (fun kt => match chain_result kt with Some _ => passed_input (states (fst kt)) | None => true end) ts.
+
   (* clause 5, with these: a task all of whose directives can be carried out
      ends in the state its execution determined *)
   Definition ok_feasible_task : bool :=
     forallb (fun kt =>
       let t := snd kt in
-      if forallb (fun di => if good fs0 m t di then true else if feasible_any_time di then true else movedir_ok di)
+      let chain := match chain_result kt with Some _ => true | None => false end in
+      if forallb (fun di => if di_input di && chain then true
+                            else if good fs0 m t di then true else if feasible_any_time di then true else movedir_ok di)
                  (dis_of kt)
       then ends_in (t_outcome t) (states (fst kt)) else true) ts.
 End Clauses.
@@ -459,8 +568,10 @@ Definition c11_row (bs : list (list task_in)) (fs0 : fsys) (obs : list tobs) (tr
   let m := mentions fs0 ts in
   let ads := List.concat (map (task_dinfos fs0) ts) in
   [ eqb_list tobs_eqb mo obs && fs_eqb mfs tree;
-    ok_input_staged fs0 tree ts states m ads && ok_last_writer fs0 tree ts states m ads bulk true;
+    ok_input_staged fs0 tree ts states m ads && ok_last_writer fs0 tree ts states m ads bulk true
+      && ok_chain_staged fs0 tree ts states ads;
     ok_output_staged fs0 tree ts states m ads && ok_last_writer fs0 tree ts states m ads bulk false;
     ok_failed_no_output fs0 tree ts m ads;
     ok_bad_fails fs0 ts states m ads;
-    ok_only_that_task fs0 ts states m ads && ok_feasible_task fs0 ts states m ads bulk ].
+    ok_only_that_task fs0 ts states m ads && ok_feasible_task fs0 ts states m ads bulk
+      && ok_chain_passes fs0 ts states ads ].
